@@ -249,7 +249,7 @@ Generated on every run (a `(changed)` file triggers a Lean rebuild):
 | `SessionKernels`, `CreditKernels`, `RecvCreditKernels`, `SettleKernels`, `LimitsKernels`, `FrameKernels`, `FrameHeaderKernels`, `LinkSplitKernels`, `CancelKernels`, `SessLifeKernels`, `TxnKernels`, `SaslKernels` | the named functions of `session/mod.rs`, `link/state.rs`, `link/receiver_link.rs`, `link/sender_link.rs`, `link/receiver.rs`, `frames/amqp.rs`, `frames/sasl.rs`, `connection/*.rs`, `transaction/*.rs`, `acceptor/sasl_acceptor.rs` | every assignment, `let`, `if` / `while` condition and selected call argument as a Lean definition over the places it reads (wrapping / saturating / checked arithmetic of the declared width, `Duration` in µs, byte-string equality); and the rank of the first (or `last:`) occurrence of named calls and token sequences in the body |
 | `Fsm.lean` | `fe2o3-amqp-types/src/states.rs`, `connection/mod.rs`, `session/mod.rs`, `link/*.rs`, `connection/engine.rs`, `session/engine.rs` | the state enums; for each `match self.local_state` a total table state → next state / illegal (nested Boolean matches become parameters); which arm each state takes in the engines; `matches!` predicates |
 | `Schemas.lean` (+ `harness/src/gen_typed.rs`) | every `struct` of `fe2o3-amqp-types/src` with `#[amqp_contract(..)]` and a `SerializeComposite` / `DeserializeComposite` derive | descriptor name and code (computed as the derive macro computes them), encoding, and the fields in declaration order with wire name, declared type, `default` / `multiple`; the same walk writes the harness' generator and field accessor of every list-encoded composite, so that the model's schema and the harness' view of a value follow the working tree together |
-| `RoutingKernels`, `IoReadKernels`, `ListenerKernels`, `PendingDetachKernels` (third session; and further facts in `CreditKernels`, `RecvCreditKernels`, `ReasmKernels`) | `session/mod.rs`, `connection/mod.rs`, `serde_amqp/src/read/ioread.rs`, `acceptor/session.rs`, `link/shared_inner.rs`, `link/sender_link.rs`, `link/receiver_link.rs`, `link/receiver.rs` | presence and order of the statements the hand-written models mirror: which table is read / taken from / written when a frame is routed; what the io reader drains and when it counts (`drain` in both branches of `read_exact`, never `clear`; the forwarding read does not go through the counting `read_bytes`); the listener replays buffered flows with a `for` (no `pop`, no `rev`); the search for a pending detach skips other frames and ends on any failure of `try_recv`; one credit per delivery (`credit_available(1)`, `take_credit(1)`); the receiver's count is the attach's `initial-delivery-count` as it is; a batch disposal counts every delivery; a continuation frame is checked before its payload is kept. Each model states these as a Boolean (`sourceShape`, `replayOldestFirst`, `skipsOthers`, …) and a theorem `source_…` proves it `true` for the tree as it is — nineteen of the round-3 changes flip one of them |
+| `RoutingKernels`, `IoReadKernels`, `ListenerKernels`, `PendingDetachKernels` (third session; and further facts in `CreditKernels`, `RecvCreditKernels`, `ReasmKernels`) | `session/mod.rs`, `connection/mod.rs`, `serde_amqp/src/read/ioread.rs`, `acceptor/session.rs`, `link/shared_inner.rs`, `link/sender_link.rs`, `link/receiver_link.rs`, `link/receiver.rs` | presence and order of the statements the hand-written models mirror: which table is read / taken from / written when a frame is routed; what the io reader drains and when it counts (`drain` in both branches of `read_exact`, never `clear`; the forwarding read does not go through the counting `read_bytes`); the listener replays buffered flows with a `for` (no `pop`, no `rev`); the search for a pending detach skips other frames and ends on any failure of `try_recv`; one credit per delivery (`credit_available(1)`, `take_credit(1)`); the receiver's count is the attach's `initial-delivery-count` as it is; a batch disposal counts every delivery; a continuation frame is checked before its payload is kept. Each model states these as a Boolean (`sourceShape`, `replayOldestFirst`, `skipsOthers`, …) and a theorem `source_…` proves it `true` for the tree as it is — eleven of the forty round-3 changes (C05-c1, C08-c1, C08-c2, C09-c1, C09-c2, C10-c1, C11-c1, C13-c1, C14-c1, C15-c2, C20-c2) change the generated facts they were written for, so that the proof breaks before any run starts |
 | `SaslTables.lean`, `TxnTables.lean` | `fe2o3-amqp-types/src/sasl`, `acceptor/connection.rs`, `connection/builder.rs`, `sasl_profile/mod.rs`, `transaction/coordinator.rs`, `transaction/session.rs` | `SaslCode` with wire values; per outcome code and per frame kind what the listener's and the client's loops do; what the coordinator does with each value of `fail`; what commit / rollback do with an unknown id |
 
 The translator is deliberately narrow: it understands literals, places, arithmetic, comparisons,
